@@ -29,6 +29,17 @@ Proof. exact mpf_cmp_nan_false. Qed.
 Example C05_witness : mpf_cmp (Mpf 0 5 (-1) 3) (Mpf 0 3 0 2) = -1.   (* 2.5 < 3: same top bit, decided by the subtraction *)
 Proof. reflexivity. Qed.
 
+(* mpf against a Python int or float: the right operand is converted exactly, so the outcome is the comparison of the exact values *)
+From Flocq Require Import Core.
+From MP Require Import Algo.Ctxfun Proofs.CmpMixed.
+Theorem C05_cmp_int : forall s n, fincanon s -> cmp_ok (mpf_cmp s (from_int n 0 RD)) (rv s) (IZR n).
+Proof. exact mpf_cmp_int. Qed.
+Theorem C05_cmp_float : forall s m53 e, fincanon s -> Z.abs m53 < 2 ^ 53 ->
+  cmp_ok (mpf_cmp s (from_float_parts m53 e 53 RN)) (rv s) (F2R (Float radix2 m53 (e - 53))).
+Proof. exact mpf_cmp_float. Qed.
+Theorem C05_eq_int : forall s n, fincanon s -> (mpf_cmp s (from_int n 0 RD) = 0 <-> rv s = IZR n).
+Proof. exact mpf_eq_int. Qed.
+
 (* ---- hash part (pure Z, axiom-free): equal values hash equally across int / mpf / mpc ---- *)
 From MP Require Import Algo.Libmpc Proofs.Hash.
 Theorem C05_hash_int : forall x, regular x -> 0 <= mexp x ->
